@@ -348,6 +348,10 @@ impl<T: Write + Seek> Writer<T> {
         for (shape, record) in container.into_iter() {
             self.write_shape_and_record(shape, record)?;
         }
+        // The writer is consumed by this call: failures of the final updates of the three
+        // files have to be reported here, `Drop` could only swallow them.
+        self.shape_writer.finalize()?;
+        self.dbase_writer.finalize()?;
         Ok(())
     }
 }
